@@ -452,6 +452,7 @@ import mir_jobs_pool    # noqa: E402,F401  (registers the pool contribution jobs
 import mir_jobs_rounds    # noqa: E402,F401  (registers the round / epoch jobs)
 import mir_jobs_tracker    # noqa: E402,F401  (registers the transaction tracker commit job)
 import mir_jobs_dbkey    # noqa: E402,F401  (registers the sorted database key jobs)
+import mir_jobs_overlay    # noqa: E402,F401  (registers the overlay listing job)
 
 
 def _index():
